@@ -31,6 +31,7 @@ def run(ctx):
     import layout as _layout
     _layout.tile_words(ctx, 'K7')             # tilemap cels are blended from the tile the map entry names (seed C02-n: hard-coded id mask)
     render.gate(ctx)
+    render.drawing_conditions(ctx, 'K4')
     render.ancestor_walk(ctx)
     # "visible" is C09's notion: the parent table the gate walks must be the nearest-preceding-lower-level one (seed C02-j replaced the
     # backward search by a look at the previous layer only)
@@ -45,7 +46,8 @@ def run(ctx):
     ctx.inst('K4', 'parent table', ok10, why10, None, key='asefile::layer::compute_parents|K4|I10')
     render.opacity_and_mode(ctx)
     import C06 as _c06l
-    _c06l.link_resolution(ctx, 'K5')       # a linked cel is drawn as its target: offset and opacity too (seed C02-o)
+    _c06l.link_resolution(ctx, 'K5')
+    _c06l.layer_opacity_as_stored(ctx, 'K5')   # the layer half of the opacity product is the stored byte of every layer (seed C02-r)       # a linked cel is drawn as its target: offset and opacity too (seed C02-o)
     import C07 as _c07f
     # "visible" starts at the layer's flag word: undefined bits in it must not wipe the VISIBLE bit (seed C02-p: from_bits(..).unwrap_or(empty()))
     _c07f.flag_conversions(ctx, 'K4', only=('asefile::layer::parse_chunk',), floor=False)
